@@ -13,6 +13,8 @@
 #include <set>
 #include <string>
 #include <typeinfo>
+#include <pthread.h>
+#include <time.h>
 #include <unistd.h>
 #include <vector>
 #include "ctx.hpp"
@@ -73,6 +75,50 @@ inline void on_alarm(int)
 {
   died();
   std::_Exit(79);
+}
+
+#if defined(__SANITIZE_THREAD__)
+// ThreadSanitizer delivers an asynchronous signal only when the thread reaches an interceptor it
+// regards as blocking; a fiber stuck inside a real pthread_mutex_lock never does, so SIGALRM
+// alone cannot end a hung run there. A helper thread watches the deadline instead. It touches
+// nothing the simulation uses (no mutex, no atomic, no allocation).
+inline long volatile &watchdog_deadline()
+{
+  static long volatile d = 0;
+  return d;
+}
+__attribute__((noinline, no_sanitize("thread"))) inline void watchdog_arm(unsigned seconds)
+{
+  watchdog_deadline() = seconds == 0 ? 0 : static_cast<long>(::time(nullptr)) + static_cast<long>(seconds) + 1;
+}
+__attribute__((noinline, no_sanitize("thread"))) inline void *watchdog_main(void *)
+{
+  for (;;)
+  {
+    timespec ts{0, 250000000};
+    ::nanosleep(&ts, nullptr);
+    long const d = watchdog_deadline();
+    if (d != 0 && static_cast<long>(::time(nullptr)) > d)
+    {
+      died();
+      std::_Exit(79);
+    }
+  }
+}
+inline void watchdog_start()
+{
+  pthread_t t;
+  if (::pthread_create(&t, nullptr, &watchdog_main, nullptr) == 0)
+    ::pthread_detach(t);
+}
+#else
+inline void watchdog_arm(unsigned) {}
+inline void watchdog_start() {}
+#endif
+inline void arm(unsigned seconds)
+{
+  ::alarm(seconds);
+  watchdog_arm(seconds);
 }
 
 inline std::string json_escape(std::string const &s)
@@ -294,6 +340,7 @@ inline int sim_main(int argc, char **argv)
   std::signal(SIGILL, &detail::on_signal);
   std::set_terminate(&detail::on_terminate);
   std::signal(SIGALRM, &detail::on_alarm);
+  detail::watchdog_start();
 
   if (mode == "gen")
   {
@@ -302,7 +349,10 @@ inline int sim_main(int argc, char **argv)
     return 0;
   }
   detail::worker_mode() = mode == "worker";
+  // the warm-up runs under the watchdog too (a hang there is reported with the announced plan)
+  detail::arm(run_timeout);
   prop::warmup();
+  detail::arm(0);
   if (mode == "replay")
   {
     Plan p;
@@ -321,9 +371,9 @@ inline int sim_main(int argc, char **argv)
     Ctx ctx;
     ctx.trace = trace;
     ctx.probes = &probes;
-    ::alarm(run_timeout);
+    detail::arm(run_timeout);
     detail::Outcome o = detail::run_plan(p, ctx);
-    ::alarm(0);
+    detail::arm(0);
     if (!ctx.sched_out.empty())
     {
       std::string sl = "SCHED";
@@ -374,7 +424,7 @@ inline int sim_main(int argc, char **argv)
     Plan p = detail::make_plan(seed, i, thorough);
     Ctx ctx;
     ctx.probes = &probes;
-    ::alarm(run_timeout);
+    detail::arm(run_timeout);
     detail::Outcome o = detail::run_plan(p, ctx);
     ++executed;
     steps += ctx.steps;
@@ -426,7 +476,7 @@ inline int sim_main(int argc, char **argv)
               detail::current_fault() = faultbuf;
               Ctx c2;
               c2.probes = &probes;
-              ::alarm(run_timeout);
+              detail::arm(run_timeout);
               detail::Outcome o2 = detail::run_plan(q, c2);
               ++enum_runs;
               steps += c2.steps;
@@ -451,7 +501,7 @@ inline int sim_main(int argc, char **argv)
         --next_enum;
     }
   }
-  ::alarm(0);
+  detail::arm(0);
   detail::current_run() = -1;
   double const wall = std::chrono::duration<double>(clock::now() - t0).count();
   // statistics line (JSON)
